@@ -26,15 +26,15 @@ def run(ctx):
     q = ctx.quick
     base = dict(NMods=2, NLeaf=1, ParSizes=[2, 3], ParRg=[True, False], Names={"a", "b"}, MaxSeq=1, MaxHist=0, Acts=ALL)
     HC.model_check(rep, "Modules", "Modules_mc", dict(base, NMods=2 if q else 3, MaxSeq=1), INV, PROPS, timeout=10000, depth=5 if q else 6)
-    runs = [("hist3", dict(base, MaxHist=3), 80000 if q else 300000),
-            ("hist4-narrow", dict(base, NLeaf=0, Names={"a"}, ParSizes=[2], ParRg=[True], MaxSeq=0, MaxHist=4, Acts={"setattr", "mode", "freeze"}), 60000 if q else 300000),
+    runs = [("hist3", dict(base, MaxHist=3), 80000 if q else 150000),
+            ("hist4-narrow", dict(base, NLeaf=0, Names={"a"}, ParSizes=[2], ParRg=[True], MaxSeq=0, MaxHist=4, Acts={"setattr", "mode", "freeze"}), 60000 if q else 150000),
             # gradients held by parameters across freeze / zero_grad / unfreeze
             # attribute names with a leading underscore are attributes like any other
-            ("hist3-underscore", dict(base, NMods=2, NLeaf=1, Names={"_a", "b"}, MaxHist=3), 60000 if q else 200000),
-            ("hist5-grads", dict(base, NMods=1, NLeaf=0, Names={"a"}, ParSizes=[2], ParRg=[True], MaxSeq=0, MaxHist=5, Acts={"setattr", "grad", "freeze", "zero"}), 60000 if q else 300000),
+            ("hist3-underscore", dict(base, NMods=2, NLeaf=1, Names={"_a", "b"}, MaxHist=3), 60000 if q else 100000),
+            ("hist5-grads", dict(base, NMods=1, NLeaf=0, Names={"a"}, ParSizes=[2], ParRg=[True], MaxSeq=0, MaxHist=5, Acts={"setattr", "grad", "freeze", "zero"}), 60000 if q else 150000),
             # a block that owns a parameter and a child with its own parameter: freeze / unfreeze / zero_grad / train / eval on either node
             ("hist5-block", dict(base, NMods=2, NLeaf=0, Names={"a"}, ParSizes=[2, 3], ParRg=[True, True], MaxSeq=0, MaxHist=5 if q else 6, InitTree="block",
-                                 Acts={"grad", "freeze", "zero"}), 60000 if q else 300000)]
+                                 Acts={"grad", "freeze", "zero"}), 60000 if q else 150000)]
     if not q:
         runs.append(("hist4-tree", dict(base, NMods=2, NLeaf=1, Names={"a"}, ParSizes=[2], ParRg=[True], MaxSeq=0, MaxHist=4,
                                         Acts={"setattr", "mode", "zero", "grad"}), 400000))
